@@ -12,7 +12,7 @@ use std::sync::atomic::{AtomicBool, AtomicUsize, Ordering};
 use std::sync::{Arc, Mutex};
 use std::time::{Duration, Instant};
 
-pub const SHAPES: &[&str] = &["chain_out", "chain_eph2", "chain_alt", "chain_ephlong", "layers", "layers_eph", "star_in", "star_out", "diamonds"];
+pub const SHAPES: &[&str] = &["chain_out", "chain_eph2", "chain_alt", "chain_ephlong", "layers", "layers_eph", "star_in", "star_out", "diamonds", "wide_eph"];
 pub const CASCADES: &[&str] = &["build", "noop", "inval_root", "inval_root_collide", "inval_leaf", "fail_root", "abort_mid"];
 
 struct BigGraph {
@@ -187,6 +187,21 @@ fn make_shape(shape: &str, size: usize, collide: bool) -> BigGraph {
                 let c = g.add(Output, &[prev], if i == 0 { d1 } else { big });
                 prev = g.add(Output, &[b, c], big);
                 i += 3;
+            }
+        }
+        "wide_eph" => {
+            // one Ephemeral feeding a wide layer of Ephemerals that are all consumed by an Always job and three Outputs
+            // (complete bipartite bottom): rounds in which one node is asked to reconsider from very many places
+            let e = g.add(Ephemeral, &[head], d1);
+            let mut layer = vec![];
+            for _ in 0..size {
+                layer.push(g.add(Ephemeral, &[e], big));
+            }
+            let mut ups = layer.clone();
+            ups.push(e);
+            g.add(Always, &ups, big);
+            for _ in 0..3 {
+                g.add(Output, &ups, big);
             }
         }
         _ => panic!("unknown shape {}", shape),
@@ -620,7 +635,7 @@ pub fn run_case(shape: &str, size: usize, cascade: &str) -> CaseResult {
                     if cascade == "inval_root" && nexp < n / 2 {
                         r.problems.push(("HARNESS".into(), format!("inval_root expected to re-execute most of the cone but the reference says {}", nexp)));
                     }
-                    if cascade == "inval_root_collide" && nexp > n / 2 + 2 && shape != "star_out" && shape != "star_in" {
+                    if cascade == "inval_root_collide" && nexp > n / 2 + 2 && shape != "star_out" && shape != "star_in" && shape != "wide_eph" {
                         r.problems.push(("HARNESS".into(), format!("colliding outputs should stop the cascade early but the reference says {}", nexp)));
                     }
                     let _ = &up1;
